@@ -118,6 +118,7 @@ class Builder:
         plan = plan or {}
         greps = [self.m(c, "service") for c in greeting]
         g = reaction(greps)
+        stay_plain = sess_kw.pop("stay_plain", False)
         si = self.new_session(g, **sess_kw)
         cmds, reps = [], list(greps)
         ok = greeting[-1] < 400 and not (len(greeting) == 1 and False)
@@ -128,7 +129,7 @@ class Builder:
             cmds.append(b"AUTH TLS")
             reps.append(a)
             client_rejects = (self.cfg["verify"] == "unknown")
-            rx = reaction([a], starttls=(auth < 400), tls_ok=tls_ok)
+            rx = reaction([a], starttls=(auth < 400), tls_ok=tls_ok, stay_plain_after_bad_tls=stay_plain)
             if client_rejects:
                 rx["model_tls_ok"] = False          # the peer does its part; the client refuses the certificate
             self.cur.append(rx)
@@ -191,7 +192,9 @@ class Builder:
 
     def logout(self, codes=(220,)):
         reps = [self.m(c, "rein") for c in codes]
-        self.cur.append(reaction(reps, stoptls=(self.secured and codes[-1] < 400)))
+        # "120, then 220": written as two separate pieces (two TLS records on a secured session)
+        pace = [len(reps[0][2]) + 2] if len(reps) > 1 else None
+        self.cur.append(reaction(reps, stoptls=(self.secured and codes[-1] < 400), pace=pace))
         was_sec = self.secured
         if codes[-1] < 400:
             self.secured = False
